@@ -241,8 +241,22 @@ class Roles:
                     cr_names.append(c.func.attr)  # type: ignore[union-attr]
                 elif not isinstance(n, ast.Expr) and not aw:
                     gs_names.append(c.func.attr)  # type: ignore[union-attr]
+        if not cr_names:
+            # second chance: the method that dispatches to (awaits) several methods which register receivers
+            openers = {m.name for m in cls.methods.values() if any(
+                isinstance(n, ast.Subscript) and isinstance(n.ctx, ast.Store) and Expander(m.node).x(n.value) == RECV
+                for n in ast.walk(m.node))}
+            for m in cls.methods.values():
+                aw = {a.value.func.attr for a in walk_own(m.node)  # type: ignore[union-attr]
+                      if isinstance(a, ast.Await) and isinstance(a.value, ast.Call) and _is_self_call(a.value)}
+                if len(aw & openers) >= 2:
+                    cr_names.append(m.name)
         self.cr = self._pick(prog, cr_names, "_check_requested_component_and_metrics")
-        self.gs = self._pick(prog, gs_names, "_get_metric_senders")
+        self.gs: FuncInfo | None
+        try:
+            self.gs = self._pick(prog, gs_names, "_get_metric_senders")
+        except AnalysisError:
+            self.gs = None  # inlined into the stream coroutine: the pairs are then built by an expression there
         # validators: what cr dispatches to per category
         self.validators: dict[str, str] = {}
         per_cat: dict[str, set[str]] = {}
@@ -260,7 +274,12 @@ class Roles:
             self.validators[cat] = got[0] if len(got) == 1 and got[0] in cls.methods else hint
         # gm: the extractor lookup called per item by gs
         gm_names = []
-        val = result_expr(self.gs.node)
+        val = result_expr(self.gs.node) if self.gs is not None else None
+        if self.gs is None:
+            for n in walk_own(self.hs.node):
+                if isinstance(n, (ast.Assign, ast.AnnAssign)) and isinstance(n.value, ast.ListComp) and n.value.generators \
+                        and hx.x(n.value.generators[0].iter) == f"{subs}.items()":
+                    val = n.value
         if isinstance(val, ast.ListComp) and isinstance(val.elt, ast.Tuple) and val.elt.elts:
             e0 = val.elt.elts[0]
             if isinstance(e0, ast.Call) and _is_self_call(e0):
@@ -275,7 +294,9 @@ class Roles:
                 if isinstance(e, ast.Await) and isinstance(e.value, ast.Call) and _is_self_call(e.value):
                     look.append(e.value.func.attr)  # type: ignore[union-attr]
         self.lookup = look[0] if len(set(look)) == 1 else "_get_component_category"
-        self.names = {self.us.name, self.hs.name, self.cr.name, self.gs.name, self.gm.name, self.lookup, *self.validators.values()} | ANCHOR_NAMES
+        self.names = {self.us.name, self.hs.name, self.cr.name, self.gm.name, self.lookup, *self.validators.values()} | ANCHOR_NAMES
+        if self.gs is not None:
+            self.names.add(self.gs.name)
 
     def _pick(self, prog: Program, cand: list[str], hint: str) -> FuncInfo:
         uniq = [n for n in dict.fromkeys(cand) if n in self.cls.methods]
@@ -308,6 +329,7 @@ class Stream:
         if len(heads) != 1:
             raise AnalysisError(f"{hs.qual}: message loop not found in the CFG")
         self.head = heads[0]
+        self.build_nodes: list[int] = []  # set by check_fan: where the pairs variable is built
         # the fan-out function: the nested closure or private method called with the message
         nested = {n.name: n for n in ast.walk(hs.node) if isinstance(n, (ast.FunctionDef, ast.AsyncFunctionDef)) and n is not hs.node}
         self.fan_calls: list[tuple[ast.Call, FuncInfo, dict[str, ast.AST]]] = []
@@ -449,9 +471,13 @@ def _value_helper(prog: Program, fn: FuncInfo, keep: set[str]):  # type: ignore[
 
 def _metric_senders_ok(prog: Program, gs: FuncInfo, ro: Roles) -> bool:
     lc = result_expr(gs.node)
-    if lc is not None:
-        lc = splice_value_calls(lc, _value_helper(prog, gs, ro.names))
-    cat_p, req_p = gs.params[1], gs.params[2]
+    return lc is not None and len(gs.params) > 2 and _pairs_expr_ok(prog, gs, lc, gs.params[1], gs.params[2], ro)
+
+
+def _pairs_expr_ok(prog: Program, ctx: FuncInfo, lc: ast.AST, cat_p: str, req_p: str, ro: Roles) -> bool:
+    """`lc` is [(extractor(category, metric), [sender(req) for req in reqs]) for metric, reqs in REQUESTS.items()]
+    with category = `cat_p` and REQUESTS = `req_p` (texts); value helpers are spliced first."""
+    lc = splice_value_calls(lc, _value_helper(prog, ctx, ro.names))
     if not isinstance(lc, ast.ListComp) or len(lc.generators) != 1:
         return False
     g = lc.generators[0]
@@ -500,11 +526,13 @@ def check_fan(run: Run, prog: Program, st: Stream) -> None:
               "the sends of one message are not awaited before the fan-out task ends", node=pm_node, file=hs.file)
     ro = st.ro
     gs = ro.gs
-    run.analysed(gs.qual)
-    run.check(_metric_senders_ok(prog, gs, ro), "C20.FAN", gs.qual,
-              "[(extractor(category, metric), [sender(req) for req in reqs]) for metric, reqs in requests.items()]",
-              "extractor and senders of a pair do not come from the same (metric, requests) item, or some "
-              "request gets no sender", node=gs.node, file=gs.file)
+    subs_here = f"{SUBS}[{st.comp_p}]"
+    if gs is not None:
+        run.analysed(gs.qual)
+        run.check(_metric_senders_ok(prog, gs, ro), "C20.FAN", gs.qual,
+                  "[(extractor(category, metric), [sender(req) for req in reqs]) for metric, reqs in requests.items()]",
+                  "extractor and senders of a pair do not come from the same (metric, requests) item, or some "
+                  "request gets no sender", node=gs.node, file=gs.file)
     # the pairs used are those of this component's current requests: every value the pairs variable
     # can hold is the empty list or _get_metric_senders(category, subscriptions[comp_id])
     ok = pairs is not None
@@ -516,14 +544,26 @@ def check_fan(run: Run, prog: Program, st: Stream) -> None:
             if isinstance(v, ast.List) and not v.elts:
                 continue
             c = st.x.expand(v) if v is not None else None
+            if gs is None:
+                # the builder is inlined: the value itself must be the pairs expression over this
+                # component's subscriptions
+                good = c is not None and _pairs_expr_ok(prog, hs, c, st.cat_p, subs_here, ro)
+                run.check(good, "C20.FAN", hs.qual,
+                          "[(extractor(category, metric), [sender(req) for req in reqs]) for metric, reqs in requests.items()]",
+                          "extractor and senders of a pair do not come from the same (metric, requests) item, or some "
+                          "request gets no sender", node=v, file=hs.file)
+                ok = ok and good
+                built += 1 if good else 0
+                aliased = aliased or (v is not None and subs_here not in u(v))
+                continue
             b = bind_call(c, gs.params[1:]) if isinstance(c, ast.Call) and _is_self_call(c, gs.name) else None
             if b is None or set(b) != set(gs.params[1:]) or u(b[gs.params[1]]) != st.cat_p \
-                    or u(b[gs.params[2]]) != f"{SUBS}[{st.comp_p}]":
+                    or u(b[gs.params[2]]) != subs_here:
                 ok = False
                 continue
             built += 1
             raw = bind_call(v, gs.params[1:]) if isinstance(v, ast.Call) else None
-            aliased = aliased or raw is None or u(raw[gs.params[2]]) != f"{SUBS}[{st.comp_p}]"
+            aliased = aliased or raw is None or u(raw[gs.params[2]]) != subs_here
         ok = ok and built >= 1
         if ok and aliased and hs.cls is not None and not _subs_stable(hs.cls):
             ok = False  # an alias taken earlier may be stale once the per-component dict can be replaced
@@ -532,7 +572,11 @@ def check_fan(run: Run, prog: Program, st: Stream) -> None:
     # ... and they are built whenever the component has subscriptions: the message loop cannot be
     # reached without the build except over the "no subscriptions" side of a membership test
     cfg = st.cfg
-    build = nodes_with_call(cfg, lambda c: _is_self_call(c, gs.name))
+    # the build: where the pairs variable receives anything but the empty list
+    build = [n.id for n in cfg.nodes if pairs is not None and n.kind == "stmt" and isinstance(n.ast, (ast.Assign, ast.AnnAssign))
+             and n.ast.value is not None and not (isinstance(n.ast.value, ast.List) and not n.ast.value.elts)
+             and any(isinstance(w, ast.Name) and w.id == pairs for w in node_writes(cfg, n.id))]
+    st.build_nodes = build
     skip_edges: set[tuple[int, str]] = set()
     for t in cfg.nodes:
         if t.kind == "test" and t.ast is not None:
@@ -814,7 +858,7 @@ def check_once(run: Run, prog: Program, st: Stream) -> None:
               "validation re-runs receiver creation for a component that already has one", node=cr.node, file=cr.file)
     hs = st.hs
     hcfg = st.cfg
-    build = nodes_with_call(hcfg, lambda c: _is_self_call(c, st.ro.gs.name))
+    build = st.build_nodes
 
     def ensures(c: ast.Call) -> bool:
         if not _is_self_call(c, cr.name):
